@@ -25,6 +25,8 @@ struct nng_http_client {
 	nni_list           aios;
 	nni_mtx            mtx;
 	bool               closed;
+	bool               busy;      // a dial on "aio" is in flight
+	bool               abandoned; // ... and nobody waits for it anymore
 	nni_aio            aio;
 	char               host[260];
 	nng_stream_dialer *dialer;
@@ -33,9 +35,10 @@ struct nng_http_client {
 static void
 http_dial_start(nni_http_client *c)
 {
-	if (nni_list_empty(&c->aios)) {
+	if (c->busy || nni_list_empty(&c->aios)) {
 		return;
 	}
+	c->busy = true;
 	nng_stream_dialer_dial(c->dialer, &c->aio);
 }
 
@@ -49,7 +52,22 @@ http_dial_cb(void *arg)
 	nni_http_conn   *conn;
 
 	nni_mtx_lock(&c->mtx);
-	rv = nni_aio_result(&c->aio);
+	rv      = nni_aio_result(&c->aio);
+	c->busy = false;
+
+	if (c->abandoned) {
+		// The request this dial was made for was canceled; its
+		// outcome must not be handed to a request that came later.
+		c->abandoned = false;
+		stream       = (rv == NNG_OK) ? nni_aio_get_output(&c->aio, 0)
+		                              : NULL;
+		http_dial_start(c);
+		nni_mtx_unlock(&c->mtx);
+		if (stream != NULL) {
+			nng_stream_free(stream);
+		}
+		return;
+	}
 
 	if ((aio = nni_list_first(&c->aios)) == NULL) {
 		// User abandoned request, and no residuals left.
@@ -179,9 +197,13 @@ http_dial_cancel(nni_aio *aio, void *arg, nng_err rv)
 {
 	nni_http_client *c = arg;
 	nni_mtx_lock(&c->mtx);
-	nni_aio_abort(&c->aio, rv);
 	if (nni_aio_list_active(aio)) {
 		nni_aio_list_remove(aio);
+		if (nni_list_empty(&c->aios) && c->busy) {
+			// nobody is left to take the connection being made
+			c->abandoned = true;
+			nni_aio_abort(&c->aio, rv);
+		}
 		nni_aio_finish_error(aio, rv);
 	}
 	nni_mtx_unlock(&c->mtx);
